@@ -178,47 +178,153 @@ theorem C03_parser_store_refines_partial (o : Opts) (pol : Policy) (pre : Cif) (
   ⟨⟨parseT_out o pol pre units, parse_replay o pol pre units⟩, fun name v c hok hr => setValueC_spec o name v c hok hr,
    fun s cif code h1 h2 h3 h4 h5 h6 => C03_store_step_mkBlock o s cif code h1 h2 h3 h4 h5 h6⟩
 
+/-! ### the container a recorded call addresses EXISTS (group gX; review rA, finding A.1)
+
+  The conclusions of `C03_add_packet_calls_documented`, `C03_create_calls_documented` (frame arm) and — through `updIn` —
+  `C03_set_value_calls_documented` are guarded by `getIn … path before = some cc`.  `C03_calls_resolve` says that the guard is always met
+  (Lemmas/ParserTraceShape: a second Hoare logic over the instrumented productions, with the recorded calls visible to pre- and
+  postconditions); the theorems below restate the conclusions without the guard, and add the two calls that had no documented
+  function before (cif_container_create_loop, cif_container_prune: Spec/DataModel `Container.specCreateLoop`, `Container.specPrune`). -/
+
+/-- **C03_calls_resolve** — every recorded call of every parse (any option record, policy, input, initial target; completed or aborted)
+    addresses a container that exists in the state in which the call is made: the replay of the calls before it resolves the call's
+    path (for a save-frame creation: the path of the parent). -/
+theorem C03_calls_resolve (o : Opts) (pol : Policy) (pre : Cif) (units : Str) (k : Nat) (op : SOp)
+    (hk : (storeTrace o pol pre units)[k]? = some op) :
+    let before := ((storeTrace o pol pre units).take k).foldl (fun c op => op.apply o c) pre
+    match op with
+    | .mkBlock .. => True
+    | .mkFrame parent _ _ => (getIn o.norm parent before).isSome = true
+    | .setVal path _ _ | .mkLoop path _ | .addPkt path _ | .prune path => (getIn o.norm path before).isSome = true := by
+  intro before
+  have h := trace_paths_resolve o pol pre units k op hk
+  cases op <;> first | trivial | exact h
+
+/-- **C03_add_packet_calls_succeed** — `C03_add_packet_calls_documented` without its guard: the container exists, its LAST loop accepts
+    the packet `names ↦ values` (documented function: `.ok`), and that is what the parser model's step does. -/
+theorem C03_add_packet_calls_succeed (o : Opts) (pol : Policy) (pre : Cif) (units : Str) (h : OkCif o pre) (hr : RectCif pre)
+    (k : Nat) (path : Path) (vals : List V) (hk : (storeTrace o pol pre units)[k]? = some (SOp.addPkt path vals)) :
+    let before := ((storeTrace o pol pre units).take k).foldl (fun c op => op.apply o c) pre
+    ∃ cc, getIn o.norm path before = some cc ∧
+      ∃ ls0 l, cc.loops = ls0 ++ [l] ∧
+        Loop.specAddPacket o.norm l ((l.names.map o.norm).zip vals) = .ok { l with packets := l.packets ++ [vals] } ∧
+        addPacketLast cc.loops vals = ls0 ++ [{ l with packets := l.packets ++ [vals] }] := by
+  intro before
+  have hres : (getIn o.norm path before).isSome = true := trace_paths_resolve o pol pre units k _ hk
+  obtain ⟨cc, hcc⟩ := Option.isSome_iff_exists.mp hres
+  exact ⟨cc, hcc, C03_add_packet_calls_documented o pol pre units h hr k path vals hk cc hcc⟩
+
+/-- **C03_create_frame_calls_succeed** — the frame arm of `C03_create_calls_documented` without its guard: the parent exists and the
+    documented creation succeeds on it (the code is valid or the creation is the lenient one: `SOp.docOk`). -/
+theorem C03_create_frame_calls_succeed (o : Opts) (pol : Policy) (pre : Cif) (units : Str) (h : OkCif o pre) (hr : RectCif pre)
+    (k : Nat) (parent : Path) (code : Str) (lenient : Bool)
+    (hk : (storeTrace o pol pre units)[k]? = some (SOp.mkFrame parent code lenient)) :
+    let before := ((storeTrace o pol pre units).take k).foldl (fun c op => op.apply o c) pre
+    (lenient = true ∨ isValidName false code = true) ∧
+    ∃ cc, getIn o.norm parent before = some cc ∧
+      cc.specCreateFrame o.norm (o.norm code) code true = .ok (Container.mk cc.code (cc.frames ++ [Container.mk code [] []]) cc.loops) := by
+  intro before
+  have hres : (getIn o.norm parent before).isSome = true := trace_paths_resolve o pol pre units k _ hk
+  obtain ⟨cc, hcc⟩ := Option.isSome_iff_exists.mp hres
+  exact ⟨(trace_calls_docOk o pol pre units ⟨h, hr⟩ k _ hk).1, cc, hcc,
+    (C03_create_calls_documented o pol pre units h hr k).2 parent code lenient hk cc hcc⟩
+
+/-- **C03_set_value_calls_succeed** — the container of every recorded cif_container_set_value exists, and the call does to it what the
+    documented function does (`C03_set_value_calls_documented`: `updIn` at a path that resolves is not the identity by default). -/
+theorem C03_set_value_calls_succeed (o : Opts) (pol : Policy) (pre : Cif) (units : Str) (h : OkCif o pre) (hr : RectCif pre)
+    (k : Nat) (path : Path) (n : Str) (v : V) (hk : (storeTrace o pol pre units)[k]? = some (SOp.setVal path n v)) :
+    let before := ((storeTrace o pol pre units).take k).foldl (fun c op => op.apply o c) pre
+    (∃ cc, getIn o.norm path before = some cc ∧
+      getIn o.norm path (((storeTrace o pol pre units).take (k + 1)).foldl (fun c op => op.apply o c) pre)
+        = some (cc.specSetValue o.norm (o.norm n) n v)) := by
+  intro before
+  have hres : (getIn o.norm path before).isSome = true := trace_paths_resolve o pol pre units k _ hk
+  obtain ⟨cc, hcc⟩ := Option.isSome_iff_exists.mp hres
+  refine ⟨cc, hcc, ?_⟩
+  rw [C03_set_value_calls_documented o pol pre units h hr k path n v hk]
+  rw [getIn_updIn o _ (fun c => by cases c; simp only [Container.specSetValue]; split <;> (try split) <;> rfl) path]
+  show (getIn o.norm path before).map _ = _
+  rw [hcc]; rfl
+
+/-- **C03_create_loop_calls_succeed** — every recorded cif_container_create_loop: the container exists and the DOCUMENTED function
+    (`Container.specCreateLoop`, category NULL; group gX) succeeds on it — names not empty, all valid, none in use, pairwise distinct
+    (`SOp.docOk`) — with the result the parser model's step produces. -/
+theorem C03_create_loop_calls_succeed (o : Opts) (pol : Policy) (pre : Cif) (units : Str) (h : OkCif o pre) (hr : RectCif pre)
+    (k : Nat) (path : Path) (names : List Str) (hk : (storeTrace o pol pre units)[k]? = some (SOp.mkLoop path names)) :
+    let before := ((storeTrace o pol pre units).take k).foldl (fun c op => op.apply o c) pre
+    ∃ cc, getIn o.norm path before = some cc ∧
+      cc.specCreateLoop o.norm none names (isValidName true)
+        = .ok (Container.mk cc.code cc.frames (cc.loops ++ [{ category := none, names := names, packets := [] }])) := by
+  intro before
+  have hres : (getIn o.norm path before).isSome = true := trace_paths_resolve o pol pre units k _ hk
+  obtain ⟨cc, hcc⟩ := Option.isSome_iff_exists.mp hres
+  obtain ⟨hne, hv, hcl⟩ := trace_calls_docOk o pol pre units ⟨h, hr⟩ k _ hk
+  exact ⟨cc, hcc, mkLoop_spec o cc names hne hv (hcl cc hcc)⟩
+
+/-- **C03_prune_calls_documented** — every recorded cif_container_prune addresses an existing container and is the documented function
+    (`Container.specPrune`) applied to it. -/
+theorem C03_prune_calls_documented (o : Opts) (pol : Policy) (pre : Cif) (units : Str)
+    (k : Nat) (path : Path) (hk : (storeTrace o pol pre units)[k]? = some (SOp.prune path)) :
+    let before := ((storeTrace o pol pre units).take k).foldl (fun c op => op.apply o c) pre
+    (getIn o.norm path before).isSome = true ∧
+      (SOp.prune path).apply o before = updIn o.norm Container.specPrune path before := by
+  intro before
+  refine ⟨trace_paths_resolve o pol pre units k _ hk, ?_⟩
+  show updIn o.norm pruneC path before = _
+  have : pruneC = Container.specPrune := funext prune_spec'
+  rw [this]
+
 /-! ### the composition over whole histories (group gX)
 
-  `ParserSim.coveredFrom none trace`: the trace contains no save-frame creation, and every cif_loop_add_packet directly follows the
-  cif_container_create_loop / cif_loop_add_packet of the same container (what parse_loop does; evaluated by the model driver on every
-  request of family `parse`: `sto=BADshape` otherwise).  For such traces — every option record, every policy, every input, completed
-  or aborted parses, lenient creations included — the FULL statement holds, and more: the history is in contract, so every theorem of
-  C04 / C05 / C06 / C07 about in-contract histories applies to what the parser built. -/
+  `ParserSim.noFrames trace`: the trace contains no save-frame creation.  For such traces — every option record, every policy, every
+  input, completed or aborted parses, lenient creations included — the FULL statement holds, and more: the history is in contract, so
+  every theorem of C04 / C05 / C06 / C07 about in-contract histories applies to what the parser built.  (That every
+  cif_loop_add_packet directly follows the cif_container_create_loop / cif_loop_add_packet of the same container — so that the loop
+  handle of `storeOps` denotes the last loop of the container — is `Model.Parser.trace_shaped`, proved of every trace.) -/
 
 /-- **C03_parser_store_refines_covered_partial** — `C03_parser_store_refines_full` for the covered traces: the recorded calls of the
     parse, translated into a `Store.Op` history and run through `Store.step` from the empty world, all return CIF_OK, and the store
     then shows (`Store.abs`) EXACTLY the CIF the parser model returns.  (Lemmas/ParserStoreSim: each call on the documented model with
     identities vs. the tree; Lemmas/ParserStoreRun: handle tables, `C04_refines` per step.) -/
 theorem C03_parser_store_refines_covered_partial (o : Opts) (pol : Policy) (units : Str) (ops : List Store.Op)
-    (hcov : ParserSim.coveredFrom none (storeTrace o pol [] units) = true)
+    (hnf : ParserSim.noFrames (storeTrace o pol [] units) = true)
     (hso : storeOps o (storeTrace o pol [] units) = some ops) :
     (storeRun ops).2 = true ∧ ∃ s, (storeRun ops).1 = some s ∧ Store.abs s.db = (parse o pol [] units).cif := by
-  obtain ⟨_, hall, _, s, hc, _, habs⟩ := ParserSim.parse_store_sim o pol units ops hcov hso
+  obtain ⟨_, hall, _, s, hc, _, habs⟩ := ParserSim.parse_store_sim o pol units ops hnf hso
   refine ⟨hall, s, ?_, habs⟩
   show (Store.run {} ops).1.cifs.getD 0 none = some s
   rw [hc]; rfl
+
+/-- **C03_parser_store_refines_noframes_partial** — the same without the hypothesis that the trace has a translation: for a parse that
+    creates no save frame `storeOps` SUCCEEDS (every call finds the handle its container got: `C03_calls_resolve`), every translated
+    call returns CIF_OK, and the store then shows exactly the parser model's CIF. -/
+theorem C03_parser_store_refines_noframes_partial (o : Opts) (pol : Policy) (units : Str)
+    (hnf : ParserSim.noFrames (storeTrace o pol [] units) = true) :
+    ∃ ops, storeOps o (storeTrace o pol [] units) = some ops ∧ (storeRun ops).2 = true ∧
+      ∃ s, (storeRun ops).1 = some s ∧ Store.abs s.db = (parse o pol [] units).cif := by
+  obtain ⟨ops, hso⟩ := ParserSim.storeOps_total o pol units hnf
+  exact ⟨ops, hso, C03_parser_store_refines_covered_partial o pol units ops hnf hso⟩
 
 /-- **C03_parse_is_store_history_partial** — the calls of a (covered) parse are an IN-CONTRACT history of the store API from the empty
     world; hence the documented model with identities (`specRun`, Spec/StoreSpec) predicts every result and the final state
     (`C04_refines_from_start` applies). -/
 theorem C03_parse_is_store_history_partial (o : Opts) (pol : Policy) (units : Str) (ops : List Store.Op)
-    (hcov : ParserSim.coveredFrom none (storeTrace o pol [] units) = true)
+    (hnf : ParserSim.noFrames (storeTrace o pol [] units) = true)
     (hso : storeOps o (storeTrace o pol [] units) = some ops) :
     Store.inContractHist {} ops = true ∧
       Store.specRun {} ops = some (Store.absW (Store.run {} ops).1, (Store.run {} ops).2) := by
-  obtain ⟨hin, _⟩ := ParserSim.parse_store_sim o pol units ops hcov hso
+  obtain ⟨hin, _⟩ := ParserSim.parse_store_sim o pol units ops hnf hso
   exact ⟨hin, C04_refines_from_start ops hin⟩
 
 /-- **C03_store_inv_after_parse_partial** — after every (covered) parse, also an aborted one, the world of the store model satisfies
     `WOk` (store invariant `Good` / `Inv` of the CIF, autocommit, iterator table tied) — and the CIF it shows is consistent and
     rectangular (`OkCif`, `RectCif`: `C03_consistent_after_fresh` about the store's own abstraction). -/
 theorem C03_store_inv_after_parse_partial (o : Opts) (pol : Policy) (units : Str) (ops : List Store.Op)
-    (hcov : ParserSim.coveredFrom none (storeTrace o pol [] units) = true)
+    (hnf : ParserSim.noFrames (storeTrace o pol [] units) = true)
     (hso : storeOps o (storeTrace o pol [] units) = some ops) :
     Store.WOk (Store.run {} ops).1 ∧ ∃ s, (Store.run {} ops).1.cifs = [some s] ∧ Store.Inv s.db ∧ s.autocommit = true ∧
       OkCif o (Store.abs s.db) ∧ RectCif (Store.abs s.db) := by
-  obtain ⟨_, _, hwok, s, hc, hits, habs⟩ := ParserSim.parse_store_sim o pol units ops hcov hso
+  obtain ⟨_, _, hwok, s, hc, hits, habs⟩ := ParserSim.parse_store_sim o pol units ops hnf hso
   have hl : (Store.run {} ops).1.liveC 0 = some s := by unfold Store.World.liveC; rw [hc]; rfl
   refine ⟨hwok, s, hc, (hwok.good.live hl).db.inv, hwok.autocommit hl (ParserSim.busy_false _ hits 0), ?_⟩
   rw [habs]
@@ -228,13 +334,13 @@ set_option maxRecDepth 1000000 in
 /-- the hypotheses of the three theorems above hold of a real document — a scalar, a loop with two packets, the prune at the end of
     the block (kernel-evaluated); and of one with an INVALID block code created leniently after the report was accepted -/
 example :
-    ParserSim.coveredFrom none (storeTrace C03.opts2 acceptAll [] (a!"data_a _x 1 loop_ _b 1 2")) = true ∧
+    ParserSim.noFrames (storeTrace C03.opts2 acceptAll [] (a!"data_a _x 1 loop_ _b 1 2")) = true ∧
     (storeOps C03.opts2 (storeTrace C03.opts2 acceptAll [] (a!"data_a _x 1 loop_ _b 1 2"))).isSome = true := by decide +kernel
 
 example : ∃ ops, storeOps C03.opts2 (storeTrace C03.opts2 acceptAll [] (a!"data_a _x 1 loop_ _b 1 2")) = some ops ∧
     (storeRun ops).2 = true ∧ ∃ s, (storeRun ops).1 = some s ∧
       Store.abs s.db = (parse C03.opts2 acceptAll [] (a!"data_a _x 1 loop_ _b 1 2")).cif := by
-  have h : ParserSim.coveredFrom none (storeTrace C03.opts2 acceptAll [] (a!"data_a _x 1 loop_ _b 1 2")) = true ∧
+  have h : ParserSim.noFrames (storeTrace C03.opts2 acceptAll [] (a!"data_a _x 1 loop_ _b 1 2")) = true ∧
       (storeOps C03.opts2 (storeTrace C03.opts2 acceptAll [] (a!"data_a _x 1 loop_ _b 1 2"))).isSome = true := by decide +kernel
   obtain ⟨ops, hops⟩ := Option.isSome_iff_exists.mp h.2
   exact ⟨ops, hops, C03_parser_store_refines_covered_partial _ _ _ ops h.1 hops⟩
